@@ -54,6 +54,8 @@ func main() {
 		cmdCheck(os.Args[2:])
 	case "replay":
 		cmdReplay(os.Args[2:])
+	case "sites":
+		cmdSites(os.Args[2:])
 	default:
 		fmt.Fprintln(os.Stderr, "unknown command", os.Args[1])
 		os.Exit(2)
@@ -280,6 +282,9 @@ func runVerify(o *runOpts) (*RunOutput, error) {
 				for i, ob := range groups[n] {
 					q := *ob.Query
 					q.Name = fmt.Sprintf("%s__%d", ob.Name, i)
+					mu.Lock()
+					q.Text = q.SMT()
+					mu.Unlock()
 					sr := Solve(&q, o.work, o.timeout, o.seed, false)
 					mu.Lock()
 					r := results[n]
@@ -299,6 +304,9 @@ func runVerify(o *runOpts) (*RunOutput, error) {
 			continue
 		}
 		for i, ob := range groups[n] {
+			mu.Lock()
+			ob.Query.Text = ob.Query.SMT()
+			mu.Unlock()
 			ch <- job{ob, i}
 		}
 	}
@@ -404,3 +412,45 @@ func (x *Exec) effectiveContract(fn *ssa.Function, c *FuncContract) *FuncContrac
 	return m
 }
 
+
+// cmdSites prints the ordinal names of calls, returns and loops of a function with their
+// source lines (a debugging aid for writing contracts).
+func cmdSites(args []string) {
+	ld, err := Load("/repo")
+	if err != nil {
+		fmt.Println(err)
+		os.Exit(3)
+	}
+	cs, _ := LoadContracts("/repo")
+	x := NewExec(ld, cs)
+	for _, k := range args {
+		f := ld.funcs[k]
+		if f == nil {
+			fmt.Println("unknown function", k)
+			continue
+		}
+		t := sites(f)
+		type ent struct {
+			name string
+			line int
+		}
+		var es []ent
+		for in, n := range t.names {
+			if strings.HasPrefix(n, "ret#") || strings.Contains(n, "#") {
+				switch in.(type) {
+				case *ssa.Return, *ssa.Call, *ssa.TypeAssert, *ssa.Panic:
+					es = append(es, ent{n, ld.fset.Position(in.Pos()).Line})
+				}
+			}
+		}
+		sort.Slice(es, func(i, j int) bool { return es[i].line < es[j].line || (es[i].line == es[j].line && es[i].name < es[j].name) })
+		fmt.Println("==", k)
+		for _, e := range es {
+			fmt.Printf("  %-40s line %d\n", e.name, e.line)
+		}
+		x.analyzeLoops(f)
+		for _, li := range x.loops {
+			fmt.Printf("  loop %d at line %d\n", li.index, ld.fset.Position(li.pos).Line)
+		}
+	}
+}
